@@ -345,7 +345,7 @@ template <template <typename> class Acc> void dist_case(Rng& rng, char const* ac
 
 } // namespace
 
-std::uint64_t vfh_num_cases(bool thorough) { return thorough ? 1500000 : 40000; }
+std::uint64_t vfh_num_cases(bool thorough) { return thorough ? 4000000 : 40000; }
 
 void vfh_run_case(std::uint64_t idx, Rng& rng)
 {
